@@ -3,7 +3,7 @@ from engines.arena_prop import run_arena_property
 
 def run(ctx):
     return run_arena_property(ctx, ["BumpProof.Props.C14", "BumpProof.Props.Hist2@C14"],
-        runs_quick=[('claims', 200, 100)],
+        runs_quick=[('claims', 700, 100)],
         runs_thorough=[('claims', 8000, 200)],
         fields=(0, 2, 3), extra_oracles=(),
         note='claimed-handle-is-inert theorems (via C11 on the dummy range) + correspondence + claimed-handle oracles on the implementation')
